@@ -126,11 +126,14 @@ theorem readN_short (n : Nat) (l : Bytes) (h : l.length < n) : readN n l = .erro
   · simp [h0, he]
   · simp only [h0, he, h, if_false, if_true]; exact Or.inr trivial
 
+theorem take_app4 (t Y : Bytes) (m : Nat) (ht : t.length = 4) (h : 4 ≤ m) : (t ++ Y).take m = t ++ Y.take (m - 4) := by
+  rw [take_append_ge _ _ _ (by omega), ht]
+
 /-- a cut inside the alien chunks / the header of the next track chunk makes the chunk loop fail with an EOF class -/
 theorem chunkLoop_cut (as : List Alien) (hv : ∀ a ∈ as, a.Valid) (k L : Nat) (X : Bytes) :
-    ∀ fuel m, as.length < fuel → m < ((as.map Alien.bytes).flatten).length + 8 →
-    chunkLoop fuel k (((as.map Alien.bytes).flatten ++ (MTrk ++ be32 L ++ X)).take m) = .error .eof ∨
-    chunkLoop fuel k (((as.map Alien.bytes).flatten ++ (MTrk ++ be32 L ++ X)).take m) = .error .ueof := by
+    ∀ fuel m, m < fuel → m < ((as.map Alien.bytes).flatten).length + 8 →
+    chunkLoop fuel k (((as.map Alien.bytes).flatten ++ (MTrk ++ (be32 L ++ X))).take m) = .error .eof ∨
+    chunkLoop fuel k (((as.map Alien.bytes).flatten ++ (MTrk ++ (be32 L ++ X))).take m) = .error .ueof := by
   induction as with
   | nil =>
     intro fuel m hf hm
@@ -138,46 +141,44 @@ theorem chunkLoop_cut (as : List Alien) (hv : ∀ a ∈ as, a.Valid) (k L : Nat)
     simp only [List.map_nil, List.flatten_nil, List.nil_append, List.length_nil, Nat.zero_add] at hm ⊢
     unfold chunkLoop
     by_cases h4 : m < 4
-    · have : ((MTrk ++ be32 L ++ X).take m).length < 4 := by simp; omega
+    · have : ((MTrk ++ (be32 L ++ X)).take m).length < 4 := by simp; omega
       rcases readN_short 4 _ this with h | h <;> simp [h, bind, Except.bind]
-    · have e1 : (MTrk ++ be32 L ++ X).take m = MTrk ++ (be32 L ++ X).take (m - 4) := by
-        rw [List.append_assoc, take_append_ge _ _ _ (by simp [MTrk]; omega)]; simp [MTrk]
-      rw [e1, readN4' MTrk _ rfl]
+    · rw [take_app4 MTrk _ m rfl (by omega), readN4' MTrk _ rfl]
       have : ((be32 L ++ X).take (m - 4)).length < 4 := by simp; omega
       rcases readN_short 4 _ this with h | h <;> simp [h, bind, Except.bind]
   | cons a as ih =>
     intro fuel m hf hm
     obtain ⟨h4, hne, hlen⟩ := hv a (by simp)
     obtain ⟨f, rfl⟩ : ∃ f, fuel = f + 1 := ⟨fuel - 1, by omega⟩
-    have hbytes : ((a :: as).map Alien.bytes).flatten ++ (MTrk ++ be32 L ++ X)
-        = a.typ ++ (be32 a.data.length ++ (a.data ++ ((as.map Alien.bytes).flatten ++ (MTrk ++ be32 L ++ X)))) := by
+    have hbytes : ((a :: as).map Alien.bytes).flatten ++ (MTrk ++ (be32 L ++ X))
+        = a.typ ++ (be32 a.data.length ++ (a.data ++ ((as.map Alien.bytes).flatten ++ (MTrk ++ (be32 L ++ X))))) := by
       simp [Alien.bytes, chunk, List.append_assoc]
+    have hm8 : m < 4 + 4 + a.data.length + ((as.map Alien.bytes).flatten).length + 8 := by
+      simp only [List.map_cons, List.flatten_cons, List.length_append, Alien.bytes, chunk, be32_len] at hm
+      omega
     rw [hbytes]
-    generalize hR : (as.map Alien.bytes).flatten ++ (MTrk ++ be32 L ++ X) = R
+    generalize hR : (as.map Alien.bytes).flatten ++ (MTrk ++ (be32 L ++ X)) = R
     unfold chunkLoop
     by_cases c1 : m < 4
     · have : ((a.typ ++ (be32 a.data.length ++ (a.data ++ R))).take m).length < 4 := by simp; omega
       rcases readN_short 4 _ this with h | h <;> simp [h, bind, Except.bind]
-    · rw [take_append_ge _ _ _ (by omega), readN4' a.typ _ h4]
-      simp only [h4]
+    · rw [take_app4 a.typ _ m h4 (by omega), readN4' a.typ _ h4]
       by_cases c2 : m - 4 < 4
       · have : ((be32 a.data.length ++ (a.data ++ R)).take (m - 4)).length < 4 := by simp; omega
         rcases readN_short 4 _ this with h | h <;> simp [h, bind, Except.bind]
-      · rw [take_append_ge _ _ _ (by simp [be32]; omega), readN4' (be32 a.data.length) _ (be32_len _)]
-        simp only [be32_len, bind, Except.bind, hne, if_false]
+      · rw [take_app4 (be32 a.data.length) _ (m - 4) (be32_len _) (by omega)]
+        simp only [bind, Except.bind, readN4' (be32 a.data.length) _ (be32_len _), hne, if_false]
         have hl : lenOf4 (be32 a.data.length) = a.data.length := by
           simp only [be32, lenOf4]; exact be32_dec' _ hlen
         rw [hl]
         by_cases c3 : m - 4 - 4 < a.data.length
         · have : ((a.data ++ R).take (m - 4 - 4)).length < a.data.length := by simp; omega
-          simp [this]
+          rw [if_pos this]; exact Or.inl rfl
         · rw [take_append_ge _ _ _ (by omega)]
           have hnl : ¬ ((a.data ++ R.take (m - 4 - 4 - a.data.length)).length < a.data.length) := by simp
           simp only [hnl, if_false]
           have hdrop : (a.data ++ R.take (m - 4 - 4 - a.data.length)).drop a.data.length = R.take (m - 4 - 4 - a.data.length) := by simp
           rw [hdrop, ← hR]
-          apply ih (fun x hx => hv x (by simp [hx])) f _ (by simp at hf; omega)
-          simp only [List.map_cons, List.flatten_cons, List.length_append, Alien.bytes, chunk, be32_len] at hm
-          omega
+          exact ih (fun x hx => hv x (by simp [hx])) f _ (by omega) (by omega)
 
 end Midi.Gram
